@@ -121,19 +121,27 @@ def check_window_bound(P, R, rid):
                 env2[x.id] = Lin.sym('S')
         return lin_eval(e, env2)
     seen = 0
-    for lp in [x for x in walk_shallow(f.node) if isinstance(x, ast.For) and isinstance(x.iter, ast.Call) and dotted(x.iter.func) == 'range' and len(x.iter.args) == 3]:
-        if src(lp.iter.args[2]) != tl:
+    def _range_of(n_):
+        it_ = n_.iter
+        if isinstance(it_, ast.Name):
+            ds_ = rd.at(g.nodes_for(n_)[0], it_.id)
+            if len(ds_) == 1 and ds_[0].value is not None:
+                it_ = ds_[0].value
+        return it_ if isinstance(it_, ast.Call) and dotted(it_.func) == 'range' and len(it_.args) == 3 else None
+    for lp in [x for x in walk_shallow(f.node) if isinstance(x, ast.For) and _range_of(x) is not None]:
+        rg_ = _range_of(lp)
+        if src(rg_.args[2]) != tl:
             continue
         seen += 1
         at = g.nodes_for(lp)[0]
-        st = lin(lp.iter.args[1], at)
+        st = lin(rg_.args[1], at)
         want = Lin.sym('L') - Lin.sym('T') + Lin(1)
         if st is None:
-            R.undecided(rid, f, lp, '_eat_data', f'the stop `{short(lp.iter.args[1])}` of the window loop is not linear in len(chunk) and the token length')
+            R.undecided(rid, f, lp, '_eat_data', f'the stop `{short(rg_.args[1])}` of the window loop is not linear in len(chunk) and the token length')
             continue
         ok = st == want
-        R.ob(rid, f, lp, ok, text=f'`{short(lp.iter)}`: every window that fits is scanned (stop = len(chunk) - tlen + 1)', detail='' if ok else
-             f'the window loop stops at `{short(lp.iter.args[1])}` = {st}, not at {want}: a last window that fits exactly is treated as a tail - a complete delimiter there '
+        R.ob(rid, f, lp, ok, text=f'`{short(rg_)}`: every window that fits is scanned (stop = len(chunk) - tlen + 1)', detail='' if ok else
+             f'the window loop stops at `{short(rg_.args[1])}` = {st}, not at {want}: a last window that fits exactly is treated as a tail - a complete delimiter there '
              f'becomes a zero-length pending continuation and is reported only with the next chunk, so the markup of a body depends on where the reads cut it',
              why='every division of a well-formed body gives the same result as parsing it in one piece', key_extra='window-bound')
     for n in g.nodes:
@@ -249,6 +257,23 @@ def check_eat_data_resets(P, R, rid):
         ok = vals == [er_[o.split('.')[1]] for o in order]
         fall = [p for (p, lab) in g.exit.pred if not (p.kind == 'stmt' and isinstance(p.ast, ast.Return))]
         ok = ok and all(p in wb for p in fall) and bool(fall)
+    if not ok:
+        # the state may be written where it is decided, path by path: every way out that reports no position has stored every field of the carried state
+        def _stores(field):
+            out_ = []
+            for n_ in g.nodes:
+                if n_.kind == 'stmt' and isinstance(n_.ast, ast.Assign):
+                    for t_ in n_.ast.targets:
+                        for e_ in (t_.elts if isinstance(t_, ast.Tuple) else [t_]):
+                            if dotted(e_) == field:
+                                out_.append(n_)
+            return out_
+        none_exits = [n_ for n_ in g.nodes if n_.kind == 'stmt' and isinstance(n_.ast, ast.Return) and (n_.ast.value is None or is_const(n_.ast.value, None)) and n_ in g.reachable()]
+        none_exits += [p_ for (p_, lab_) in g.exit.pred if lab_ != 'exc' and not (p_.kind == 'stmt' and isinstance(p_.ast, (ast.Return, ast.Raise))) and p_ in g.reachable()]
+        if none_exits and all(_stores(fl_) and all(e_ in _stores(fl_) or g.must_pass(g.entry, e_, _stores(fl_), labels_skip=('exc',)) for e_ in none_exits) for fl_ in state_fields):
+            ok = True
+            if not wb:
+                wb = _stores(sorted(state_fields)[0])
     R.ob(rid, f, wb[0].ast if wb else f.node, ok, text='normal end stores (trest_len, trest) back on the scanner', detail='' if ok else
          'the chunk can end without the partial-delimiter remainder being stored for the next chunk', key_extra='writeback')
     # "need more data" (return None) is only answered through that write-back: an early `return` leaves a pending remainder neither checked nor advanced
